@@ -1233,4 +1233,175 @@ example : dmarcVerdict (.record false .reject none) (some ⟨.fail, true⟩) (so
 example : dmarcVerdict (.record true .none (some .reject)) (some ⟨.fail, true⟩) (some ⟨.fail, false⟩) =
     .refused (.smtp 550 ⟨5, 7, 1⟩ dmarcMsg) := by rfl
 
+/-! ## Several recipients in one attempt, AUTH towards the downstream server (strengthening round 9) -/
+
+/-- what the record of a recipient becomes: unchanged when the target accepted it, the conversion
+of ITS error otherwise -/
+def recOf (old : Option Reply) : Option Err → Option Reply
+  | none => old
+  | some e => some (toSMTPErr e)
+
+theorem attemptStep_stored_recOf (mt : Nat) (s : RcptState) (e : Err) :
+    (attemptStep mt s (some e)).1.stored = some (toSMTPErr e) := (attemptStep_some mt s e).1
+
+/-- the record of EVERY recipient after the loop over `meta.To` -/
+theorem attemptLoop_stored (mt : Nat) (errs : Nat → Option Err) (to : List Nat) :
+    ∀ (m : AttMeta) (new failed : List Nat) (r : Nat),
+      (attemptLoop mt errs to m new failed).1.stored r =
+        if r ∈ to then recOf (m.stored r) (errs r) else m.stored r := by
+  induction to with
+  | nil => intro m new failed r; simp [attemptLoop]
+  | cons x rest ih =>
+    intro m new failed r
+    unfold attemptLoop
+    cases hx : errs x with
+    | none =>
+      simp only
+      rw [ih]
+      by_cases hr : r = x
+      · subst hr; simp [hx, recOf]
+      · simp [hr]
+    | some e =>
+      simp only
+      have hst := attemptStep_stored_recOf mt (m.get x) e
+      rcases hd : attemptStep mt (m.get x) (some e) with ⟨s', d⟩
+      rw [hd] at hst
+      simp only at hst
+      have key : ∀ new' failed', (attemptLoop mt errs rest (m.set x s') new' failed').1.stored r =
+          if r ∈ x :: rest then recOf (m.stored r) (errs r) else m.stored r := by
+        intro new' failed'
+        rw [ih]
+        by_cases hr : r = x
+        · subst hr
+          simp [AttMeta.set, hx, recOf, hst]
+        · simp [AttMeta.set, hr]
+      cases d <;> simp only <;> exact key _ _
+
+/-- **C16 (several recipients, the record is the recipient's own failure).** After one attempt of a
+message for any list of recipients (any order, repetitions allowed), whatever was recorded before
+and whatever the OTHER recipients failed with: the record of a recipient that failed in this attempt
+is the conversion of ITS error of THIS attempt. -/
+theorem C16_attempt_record_is_own_failure (mt : Nat) (errs : Nat → Option Err) (to : List Nat)
+    (m : AttMeta) (r : Nat) (e : Err) (hr : r ∈ to) (he : errs r = some e) :
+    (attemptLoop mt errs to m [] []).1.stored r = some (toSMTPErr e) := by
+  rw [attemptLoop_stored]; simp [hr, he, recOf]
+
+/-- **C16 (several recipients, independence).** The record of recipient `r` after an attempt is a
+function of `r`'s own error only: two attempts that differ in the errors (or the success) of any
+OTHER recipients leave the same record for `r`. -/
+theorem C16_attempt_records_are_independent (mt : Nat) (errs errs' : Nat → Option Err) (to : List Nat)
+    (m : AttMeta) (r : Nat) (h : errs r = errs' r) :
+    (attemptLoop mt errs to m [] []).1.stored r = (attemptLoop mt errs' to m [] []).1.stored r := by
+  rw [attemptLoop_stored, attemptLoop_stored, h]
+
+/-- … and so is the coherence of the record with the decision: a well-formed failure of `r` is
+recorded with the class the retry decision (before the attempt bound) is taken on, whatever the
+other recipients of the attempt did. -/
+theorem C16_attempt_record_class_matches_retry (mt : Nat) (errs : Nat → Option Err) (to : List Nat)
+    (m : AttMeta) (r : Nat) (e : Err) (hr : r ∈ to) (he : errs r = some e)
+    (h : LeavesCoherent e) (hm : MarkersAgree e) :
+    ∃ rec, (attemptLoop mt errs to m [] []).1.stored r = some rec ∧ StoredCoherent rec ∧
+      (queueRetries e = true ↔ rec.code / 100 = 4) ∧ (queueRetries e = false ↔ rec.code / 100 = 5) :=
+  ⟨toSMTPErr e, C16_attempt_record_is_own_failure mt errs to m r e hr he,
+   C16_queue_record_classes_agree e h hm, (C16_class_matches_retry e h hm).1, (C16_class_matches_retry e h hm).2⟩
+
+/-- the reviewers' scenario: same text, 550 5.1.1 for the first recipient and 450 4.2.1 for the
+second — each keeps its own record, in both envelope orders -/
+def twinErrs : Nat → Option Err
+  | 1 => some (.smtp 550 ⟨5,1,1⟩ [77])
+  | 2 => some (.smtp 450 ⟨4,2,1⟩ [77])
+  | _ => none
+example : (attemptLoop 3 twinErrs [1, 2] .init [] []).1.stored 2 = some ⟨450, some ⟨4,2,1⟩, .text [77]⟩ ∧
+    (attemptLoop 3 twinErrs [2, 1] .init [] []).1.stored 1 = some ⟨550, some ⟨5,1,1⟩, .text [77]⟩ ∧
+    (attemptLoop 3 twinErrs [1, 2] .init [] []).2 = ([2], [1]) := by decide
+example : LeavesCoherent (.smtp 450 ⟨4,2,1⟩ [77]) ∧ MarkersAgree (.smtp 450 ⟨4,2,1⟩ [77]) := by
+  refine ⟨by simp [LeavesCoherent]; decide, ?_⟩
+  intro c hc; simp [codeField] at hc; subst hc; decide
+
+/-- **C16 (AUTH towards the downstream server).** Whatever `auth` is configured on `target.smtp` /
+`target.lmtp` and whatever the next hop does with the AUTH command — accepts, answers with any
+class-coherent reply (454 4.7.0, 535 5.7.8, a reply without enhanced code, …), drops the
+connection, sends garbage — a failure of that step is good: reply and record class-coherent, retried
+exactly when recorded as 4yz. -/
+theorem C16_downstream_auth_failure_coherent (cfg : AuthCfg) (ans : AuthAns) (e : Err)
+    (hans : ∀ c en m, ans = .reply c en m → annOk c en = true)
+    (h : downAuthErr cfg ans = some e) : Good e := by
+  have hw : LeavesCoherent e ∧ MarkersAgree e := by
+    cases cfg with
+    | off => simp [downAuthErr] at h
+    | forward a =>
+      cases a with
+      | false =>
+        simp [downAuthErr] at h; subst h
+        refine ⟨by simp [LeavesCoherent]; decide, ?_⟩
+        intro c hc; simp [codeField] at hc; subst hc; decide
+      | true =>
+        cases ans with
+        | ok => simp [downAuthErr] at h
+        | reply c en m =>
+          simp [downAuthErr] at h; subst h
+          exact ⟨hans c en m rfl, by intro c' hc; simp [codeField] at hc⟩
+        | broken =>
+          simp [downAuthErr] at h; subst h
+          exact ⟨trivial, by intro c' hc; simp [codeField] at hc⟩
+    | plain =>
+      cases ans with
+      | ok => simp [downAuthErr] at h
+      | reply c en m =>
+        simp [downAuthErr] at h; subst h
+        exact ⟨hans c en m rfl, by intro c' hc; simp [codeField] at hc⟩
+      | broken =>
+        simp [downAuthErr] at h; subst h
+        exact ⟨trivial, by intro c' hc; simp [codeField] at hc⟩
+    | external =>
+      cases ans with
+      | ok => simp [downAuthErr] at h
+      | reply c en m =>
+        simp [downAuthErr] at h; subst h
+        exact ⟨hans c en m rfl, by intro c' hc; simp [codeField] at hc⟩
+      | broken =>
+        simp [downAuthErr] at h; subst h
+        exact ⟨trivial, by intro c' hc; simp [codeField] at hc⟩
+  exact good_of_wellformed e hw.1 hw.2
+
+/-- the class of the reply to AUTH decides everything: it is the code the client is answered with
+and the queue records, and the failure is retried exactly when it is 4yz -/
+theorem C16_downstream_auth_reply_class (cfg : AuthCfg) (c : Nat) (en : Ench) (m : List Nat) (e : Err)
+    (h : downAuthErr cfg (.reply c en m) = some e) (hcfg : cfg ≠ .forward false) :
+    (toSMTPErr e).code = c ∧ (∀ mang, (wrapErr mang e).code = c) ∧ queueRetries e = (c / 100 == 4) := by
+  have he : e = .rawSmtp c en m := by
+    cases cfg with
+    | off => simp [downAuthErr] at h
+    | forward a => cases a <;> simp_all [downAuthErr]
+    | plain => simp_all [downAuthErr]
+    | external => simp_all [downAuthErr]
+  subst he
+  refine ⟨rfl, ?_, rfl⟩
+  intro mang
+  cases mang <;> simp [wrapErr, hasDeadline]
+
+/-- **C16 (downstream transaction with `auth`).** Endpoints, AUTH, then the rest of the transaction. -/
+theorem C16_downstream_auth_transaction_coherent (attempts : List (Option Err)) (cfg : AuthCfg)
+    (ans : AuthAns) (after : After) (e : Err)
+    (hatt : ∀ x, some x ∈ attempts → LeavesCoherent x ∧ MarkersAgree x)
+    (hans : ∀ c en m, ans = .reply c en m → annOk c en = true) (ha : AfterOk after)
+    (h : downAuthTxErr attempts cfg ans after = some e) : Good e := by
+  unfold downAuthTxErr at h
+  split at h
+  · rename_i l hl
+    simp at h; subst h
+    rcases downLoop_last_mem attempts none l hl with h1 | h1
+    · cases h1
+    · exact good_transparent (hatt l h1).1 (hatt l h1).2
+  · cases h
+  · split at h
+    · rename_i x hx
+      simp at h; subst h
+      exact C16_downstream_auth_failure_coherent cfg ans _ hans hx
+    · exact good_afterErr after e ha h
+
+example : downAuthTxErr [some .plain, none] .plain (.reply 535 ⟨5,7,8⟩ [120]) .ok = some (.rawSmtp 535 ⟨5,7,8⟩ [120]) := by rfl
+example : queueRetries (.rawSmtp 535 ⟨5,7,8⟩ [120]) = false ∧ toSMTPErr (.rawSmtp 535 ⟨5,7,8⟩ [120]) = ⟨535, some ⟨5,7,8⟩, .text [120]⟩ := by decide
+example : queueRetries (.rawSmtp 454 ⟨4,7,0⟩ [120]) = true ∧ annOk 454 ⟨4,7,0⟩ = true ∧ annOk 535 ⟨5,7,8⟩ = true := by decide
+
 end MaddyVerif.C16
